@@ -1176,6 +1176,16 @@ func run(c *runner.Ctx, idx int) {
 			return
 		}
 		trak := init.Moov.Traks[before]
+		// the init's own lookup between two AddEmptyTrack calls (a muxer asks for the trex of the track it
+		// just added): every track added so far has its trex, now and after later tracks were added
+		if init.Moov.Mvex != nil && c.Rand.Chance(1, 2) {
+			for id := uint32(1); id <= uint32(before+1); id++ {
+				if tx, ok := init.Moov.Mvex.GetTrex(id); !ok || tx == nil || tx.TrackID != id {
+					s.viol(liveStage, "GetTrex-during-history", me.class, fmt.Sprintf("after %d x AddEmptyTrack, Mvex.GetTrex(%d) does not return the trex of that track", before+1, id))
+				}
+			}
+			c.Count("trex_lookups_between_track_additions", 1)
+		}
 		e := expTrack{id: uint32(len(exps) + 1), spec: t, me: me}
 		if trak.Tkhd == nil || trak.Mdia == nil || trak.Mdia.Minf == nil || trak.Mdia.Minf.Stbl == nil || trak.Mdia.Minf.Stbl.Stsd == nil {
 			s.viol(liveStage, "structure", me.class, "new trak lacks tkhd/mdia/minf/stbl/stsd")
